@@ -4,6 +4,10 @@ import json, os
 HERE = os.path.dirname(os.path.dirname(os.path.abspath(__file__)))
 
 CHECKS = {
+ 'C11': dict(level='model_checking', design='2/C11',
+   technique='deviation-bounded stateless DFS over packet delivery orders around byte/time-triggered re-exchanges in a busy real client<->server session (stream reference model + wire-label filter), plus enumeration of re-exchange positions and algorithm changes against the independent peer which derives the new keys itself',
+   text='A: seven (thorough nine) trigger configurations (byte limits from one packet up, time limits on the virtual clock, client/server/both) run ping-pong data in both directions and open a second session mid-stream; all delivery orders within the deviation bound (deviations wherever an exchange is in progress or a KEXINIT is in flight, so simultaneous initiation is reached). Data and request replies must be intact and in order, only kex/transport messages may be emitted between an endpoint\'s KEXINIT and NEWKEYS, the session id must not change. B: refpeer or asyncssh initiates a re-exchange after auth, after channel open and mid-data while the cipher/MAC suite changes among 4 suites; refpeer verifies every later packet under keys it derived from the new K,H and the old session id, and the key material must differ.',
+   note='delayed NEWKEYS by the peer and GSS re-exchange not driven.'),
  'C04': dict(level='model_checking', design='2/C04',
    technique='exhaustive bounded enumeration of (known_hosts text x target port x server credential x clock boundary) through real handshakes on the controlled loop against an independent acceptance predicate; lying servers scripted with the independent peer; two-step histories on a shared known_hosts object compared with a fresh object',
    text='Every 1-line known_hosts file over 15 pattern forms x 3 markers x 4 keys (ports 22 and 2222) and every 2-line file over a reduced second-line alphabet is combined with 14 server credentials (plain keys; host certificates whose validity windows touch the virtual clock exactly, with principal variations, wrong type, other CA, altered body). If the predicate rejects, connect must fail with a host-key/kex error and no USERAUTH_REQUEST may leave the client. Servers that present a trusted blob they cannot sign for are played by refpeer. Shared-object histories must give the same outcome as a fresh object.',
